@@ -482,7 +482,7 @@ class ConcHarness:
                 refused_ = hc.goaway_sent is not None and s_.id > hc.goaway_sent[0]
                 if tk in self._uploads and s_.end_stream and not refused_ and bytes(s_.body) != self._uploads[tk]:
                     viol("C03", "transmission-body", f"a transmission of request {tk} (stream {s_.id} on T{hc.tr.id}) carried body {bytes(s_.body)!r}, the caller's body is {self._uploads[tk]!r}",
-                         resend=sum(1 for hc2 in topo.all_h2_conns() for x_ in hc2.streams.values() if x_.token == s_.token) > 1)
+                         resend=len({op.tr.id for op in w.net.ledger if op.kind == "write" and op.tr is not None and op.task == "c" + tk[1:]}) > 1)
                 if tk in self._uploads and s_.end_stream and bytes(s_.body) != self._uploads[tk]:
                     viol("C13", "upload-body", f"stream {s_.id} (token {tk}) delivered {len(s_.body)} bytes {bytes(s_.body)[:40]!r}, the caller sent {len(self._uploads[tk])} bytes")
                 if tk in self._uploads and s_.end_count > 1:
